@@ -122,7 +122,7 @@ def cg_implicit_edges(ctx: Ctx, pid: str):
     rule = f"{pid}.implicit-edges"
     fn, cgr, pgr, _ = _cg(ctx, rule)
     ins = _implicit_loop_inserts(fn, cgr)
-    ctx.floor(rule, "implicit edge insertions", len(ins), 2, fn.site)
+    ctx.floor(rule, "implicit edge insertions", len(ins), 1, fn.site)
     for ex, e, x, y in ins:
         (bm,), it_m = loops(e)[0]
         (b1,), it1 = loops(e)[1]
@@ -291,7 +291,12 @@ def cg_priority_edges(ctx: Ctx, pid: str):
     rule = f"{pid}.priority-parity"
     fn, cgr, pgr, porder = _cg(ctx, rule)
     ins = _edge_inserts(fn, pgr)
-    ctx.floor(rule, "priority edge insertions", len(ins), 2, fn.site)
+    ctx.analysed[f"{rule}:priority edge insertions"] = len(ins)
+    if len(ins) < 2:
+        # add_edge exists (it inserts the conflict edges) but relations no longer produce priority edges
+        ctx.bad(rule, fn.site, "_conflict_graph.pgr", found=f"{len(ins)} priority edge insertion(s) reachable from the relation loop",
+                required="both Priority.LEFT and Priority.RIGHT relations insert a priority edge")
+        return
     # orientation: +1 if pgr[high].add(low) i.e. edge high -> low
     orient = {}
     for ex, e, x, y in ins:
